@@ -439,23 +439,25 @@ def _do_rewrite(source: str, rewrite: _Rewrite, *, fix_function_name: str = "") 
     lines = new_code.splitlines(keepends=True)
     indent = getattr(old, "col_offset", getattr(new, "col_offset", 0))
     indents = {**{i: indent for i in range(len(lines))}, 0: len(code) - len(code.lstrip(" "))}
+    inside_string = set()  # Lines that end inside of a string keep their trailing whitespace
 
     try:
         new_code_ast = core.parse(new_code)
     except SyntaxError:
         pass  # new_code is not necessarily valid python syntax in all cases
     else:
-        for node in core.walk(new_code_ast, (ast.Constant(value=str), ast.JoinedStr)):
+        for node in core.walk(new_code_ast, (ast.Constant(value=(str, bytes)), ast.JoinedStr)):
             node_code = core.get_code(node, new_code)
-            if any(
-                node_code.startswith(prefix) and node_code.endswith(prefix[-3:])
-                for prefix in ("b'''", "r'''", "f'''", "'''", 'b"""', 'r"""', 'f"""', '"""')
-            ):
+            quotes = node_code.lstrip("bBfFrRuU")[:3]
+            if quotes in ("'''", '"""') and node_code.endswith(quotes):
                 for lineno in range(node.lineno, node.end_lineno):
                     indents[lineno] = 0
+                    inside_string.add(lineno - 1)
 
     new_code = "".join(
-        f"{' ' * indents[i]}{code}".rstrip() + ("\n" if code.endswith("\n") else "")
+        f"{' ' * indents[i]}{code}"
+        if i in inside_string
+        else f"{' ' * indents[i]}{code}".rstrip() + ("\n" if code.endswith("\n") else "")
         for i, code in enumerate(lines)
     )
 
